@@ -46,6 +46,12 @@ class _Rewriter(ast.NodeTransformer):
         return ast.copy_location(ast.Call(func=ast.Name(id="__vfstr__", ctx=ast.Load()),
                                           args=[ast.List(elts=parts, ctx=ast.Load())], keywords=[]), node)
 
+    def visit_Dict(self, node):
+        self.generic_visit(node)
+        if "dict" in self.opts and not node.keys:
+            return ast.copy_location(ast.Call(func=ast.Name(id="__vdict__", ctx=ast.Load()), args=[], keywords=[]), node)
+        return node
+
     def visit_Subscript(self, node):
         self.generic_visit(node)
         if "idx" in self.opts and isinstance(node.ctx, ast.Load):
@@ -250,7 +256,7 @@ def vjoin(sep, parts):
     return sep.join(parts)
 
 
-HOOKS = {"__vfmt__": vfmt, "__vfstr__": vfstr, "__vidx__": vidx, "__vjoin__": vjoin}
+HOOKS = {"__vfmt__": vfmt, "__vfstr__": vfstr, "__vidx__": vidx, "__vjoin__": vjoin, "__vdict__": dict}
 
 
 def instrument(func, opts=("fmt", "fstr", "idx"), owner=None, extra=None, hooks=None):
